@@ -28,6 +28,8 @@ import Nstd.Server.ModelC14
                                 ids = sockets the kernel reports, in this order, if really ready;
                                 no event: the clock advances by the time-out, else by <ms>);
                                 after the last entry every further call is `I`
+     runmt <usec>               Server::run() while a REAL second thread calls interrupt() <usec> microseconds after
+                                its start (before or during run); epoll_wait really blocks; timers-only histories
 -/
 open Nstd.Common
 namespace Nstd.Server
@@ -215,6 +217,12 @@ def stepLine (s : St) (ws : List String) : Option (St × String) :=
   | ["dial", i] => do let s' := envStep s (.dial (← i.toNat?)); pure (s', out s' "ok")
   | ["adv", d] => do let s' := envStep s (.advance (← d.toNat?)); pure (s', out s' "ok")
   | ["cfail", i] => do let s' := envStep s (.connFail (← i.toNat?)); pure (s', out s' "ok")
+  | ["runmt", d] => do
+    -- a second thread calls interrupt() <d> microseconds after it was started, concurrently with run();
+    -- no virtual time passes and the kernel reports nothing but the event descriptor
+    let _ ← d.toNat?
+    let (s', evs) := runLoop 100000 (enterRun (interrupt s)) .all [] []
+    pure (s', out s' (if evs.isEmpty then "-" else " ".intercalate evs))
   | "run" :: o :: entries => do
     let o ← C13.parseOutcome o
     let es ← entries.mapM parseEntry
